@@ -1,9 +1,11 @@
 """C04 (async-formatted message = call-site formatting; deep copy; reserved = written = consumed) and
 C11 (steady-state log call neither allocates nor formats on the caller).
 Proof: Props/C04.lean, Props/C11.lean + Obligations/Codec.lean, Obligations/CodecAlloc.lean.
-Tie: tools/extractors/codec.py + harness H3 (h3_codec.cpp, six parallel translation units over ~70 compile-time argument
-shapes, real Codec<T> / detail::encode / LOG_* → queue → ManualBackendWorker → recording sink) and H5 (h5_alloc.cpp,
-interposed allocators + formatter thread ids) vs the Lean driver `codec`."""
+Tie: tools/extractors/codec.py + harness H3 (h3_codec.cpp, seven translation units over ~70 compile-time argument
+shapes, real Codec<T> / detail::encode / LOG_* → queue → ManualBackendWorker → recording sink; part 7 = statements logged
+after statements that a full BoundedDropping queue DROPPED between the size pass and the encode pass) and H5
+(h5_alloc.cpp, interposed allocators + formatter thread ids; the expected allocations come from the model, which the
+driver carries per calling thread from its first call on) vs the Lean driver `codec`."""
 import concurrent.futures
 import os
 import re
@@ -29,13 +31,18 @@ THEOREMS = {
     "C04": ["Codec.C04_reserved_eq_written", "Codec.C04_reserved_eq_written_list", "Codec.C04_index_alignment",
             "Codec.C04_window_exact", "Codec.C04_optional_alignment", "Codec.C04_fast_path_alignment", "Codec.C04_growth_keeps_entries",
             "Codec.C04_decode_encode", "Codec.C04_bytes_determine_view", "Codec.C04_framing",
+            "Codec.C04_drop_leaves_nothing", "Codec.C04_framing_after_drops", "Codec.C04_clear_position_matters",
             "Codec.C04_sanitize_spec", "Codec.C04_sanitize_id", "Codec.C04_sanitize_length", "Codec.C04_text_partial",
             "Codec.sizePass_spec", "Codec.encode_spec", "Codec.encode_short", "Codec.decode_spec",
             "Obligations.codec_extraction_complete", "Obligations.codec_cache_elem", "Obligations.codec_kinds_ok",
             "Obligations.codec_kind_names", "Obligations.codec_fast_traits", "Obligations.codec_framing_consistent",
-            "Obligations.codec_clear_rule", "Obligations.codec_escape_format", "Obligations.codec_events",
+            "Obligations.codec_clear_rule", "Obligations.codec_clear_position", "Obligations.C04_extracted_after_drops",
+            "Obligations.codec_escape_format", "Obligations.codec_events",
             "Obligations.codec_user_codecs", "Obligations.C04_extracted"],
     "C11": ["Codec.C11_events_exact", "Codec.C11_cache_growth_iff", "Codec.C11_queue_growth_iff", "Codec.C11_no_events", "Codec.C11_steady_state",
+            "Codec.C11_cstr_budget", "Codec.C11_container_slots", "Codec.C11_drained_fits_iff", "Codec.C11_no_events_after_drain",
+            "Codec.C11_oversize_allocates", "Codec.C11_drain_without_publish_allocates",
+            "Obligations.alloc_count_slots", "Obligations.alloc_drain_publishes", "Obligations.C11_extracted_after_drain",
             "Codec.C11_formatter_calls", "Codec.C11_deferred_no_format",
             "Obligations.codec_extraction_complete", "Obligations.alloc_cache_geometry",
             "Codec.C11_map_pair_temporary_allocates", "Codec.C11_listed_of_no_pair_temporaries",
@@ -46,7 +53,8 @@ MODULES = {"C04": ["QuillModel.Props.C04"], "C11": ["QuillModel.Props.C11"]}
 OBLIG = {"C04": ["QuillModel.Obligations.Codec"],
          "C11": ["QuillModel.Obligations.Codec", "QuillModel.Obligations.CodecAlloc", "QuillModel.Obligations.CodecAllocMap"]}
 
-H3_PARTS = [1, 2, 3, 4, 5, 6]
+H3_PARTS = [1, 2, 3, 4, 5, 6, 7]
+MAX_PARALLEL = 6  # compilers / harness processes at a time (the machine is shared)
 H3_FLAGS = ["-fno-access-control", "-O0", "-fno-sanitize=nonnull-attribute"]
 
 ASSUMPTIONS = {
@@ -68,7 +76,7 @@ def build_parts(parts=H3_PARTS):
     def one(k):
         return k, vlib.build_harness("h3_codec_p%d" % k, ["h3_codec.cpp"], extra_flags=H3_FLAGS + ["-DH3_PART=%d" % k])
     bins, err = {}, None
-    with concurrent.futures.ThreadPoolExecutor(max_workers=len(parts)) as ex:
+    with concurrent.futures.ThreadPoolExecutor(max_workers=min(MAX_PARALLEL, len(parts))) as ex:
         for k, (ok, path, log) in ex.map(one, parts):
             if ok:
                 bins[k] = path
@@ -82,7 +90,7 @@ def run_parts(bins, args, timeout=1500):
     def one(k):
         return k, vlib.sh([bins[k]] + args, env=vlib.ASAN_ENV, timeout=timeout)
     out = {}
-    with concurrent.futures.ThreadPoolExecutor(max_workers=len(bins)) as ex:
+    with concurrent.futures.ThreadPoolExecutor(max_workers=min(MAX_PARALLEL, len(bins))) as ex:
         for k, r in ex.map(one, sorted(bins)):
             out[k] = r
     return out
@@ -149,9 +157,9 @@ def run_c04(ck, tier):
                     oracle_hits.append((label, k, ln, text, replay_line))
                 elif ln.startswith("STATS"):
                     stats_lines.append("%s part%d: %s" % (label, k, ln))
-            if len(samples) < 3:
+            if len(samples) < 3 or (k == 7 and not any(" edrop " in x["line"] for x in samples)):
                 for ln in text.split("\n"):
-                    if ln.startswith("case ") and len(ln) < 400 and (" stmt " in ln or " e2e " in ln or "fwd" in ln):
+                    if ln.startswith("case ") and len(ln) < 400 and (" stmt " in ln or " e2e " in ln or " edrop " in ln or "fwd" in ln):
                         samples.append({"source": "%s part%d" % (label, k), "line": ln})
                         break
 
@@ -284,12 +292,20 @@ def run_c11(ck, tier):
                 traces.append(label + ": " + ln)
             elif ln.startswith(("MISMATCH", "MODEL-", "BAD-")):
                 mismatches.append((label, ln, replay_line))
+            elif ln.startswith("ORACLE"):
+                # the property evaluated by the model on this very input (steady state, record fits the drained queue,
+                # at most twelve C strings …: no allocation predicted) against the measurement on the real code
+                oracle_hits.append((label, ln, replay_line))
         for ln in text.split("\n"):
             if ln.startswith("ORACLE"):
                 oracle_hits.append((label, ln, replay_line))
             elif ln.startswith("STATS"):
                 stats_lines.append(label + ": " + ln)
             elif ln.startswith("case ") and len(samples) < 4 and len(ln) < 500 and ("13cstr" in ln or "direct" in ln or "big" in ln or "mix" in ln):
+                samples.append({"source": label, "line": ln})
+            elif ln.startswith("case ") and len(ln) < 700 and (
+                    (" d-cap-8.s3 " in ln and "a=S~" in ln and not any(" d-cap-8.s3 " in x["line"] for x in samples)) or
+                    (" b-12cstr+opt<i32> " in ln and not any(" b-12cstr+opt<i32> " in x["line"] for x in samples))):
                 samples.append({"source": label, "line": ln})
 
     cdir = os.path.join(vlib.VERIF, "corpus", "C11")
@@ -384,9 +400,13 @@ def replay(prop, path):
     rc, text = vlib.sh([hbin, "replay", path], timeout=600)
     hits = [l for l in text.split("\n") if l.startswith("ORACLE")]
     rc2, dout = vlib.driver(["codec", "run"], stdin_data=text.encode())
+    dlines = dout.split("\n")
+    hits += [l for l in dlines if l.startswith("ORACLE")]
     for l in hits[:20]:
         print(l[:2000])
-    for l in dout.split("\n"):
-        if l.startswith(("MISMATCH", "MODEL-", "BAD-", "TRACE", "DONE")):
+    shown = 0
+    for l in dlines:
+        if l.startswith(("TRACE", "DONE")) or (l.startswith(("MISMATCH", "MODEL-", "BAD-")) and shown < 20):
+            shown += l.startswith(("MISMATCH", "MODEL-", "BAD-"))
             print(l[:2000])
     return 1 if hits or rc not in (0, 3) else 0
